@@ -19,7 +19,16 @@
    in insertion order, [upsert] = d[k] = v.  _blocked_hashes is a set that
    only ever receives an element that is not yet in it (the replay check
    returns earlier), so it is a list without duplicates in insertion order.
-   on_threat is not supplied; silent=True. *)
+   on_threat is not supplied; silent=True.
+   Long histories: [burst_ops] (a counted burst of filter calls on pairwise
+   different inputs) is plain notation for a list of OFilter operations.
+
+   InnateImmunity
+   --------------
+   Validators are arbitrary functions content -> verdict in every theorem; the
+   three shipped ones are transcribed: v_length, v_charset and v_json
+   (JSONValidator: size check, json.loads as an oracle, _measure_depth with its
+   early return as written, against the nesting [depth] of the document). *)
 From Coq Require Import String ZArith List Bool.
 From Verif Require Import C10.Regex.
 Import ListNotations.
@@ -156,6 +165,31 @@ Fixpoint mrun (cfg : mconfig) (st : mstate) (ops : list mop) : mstate * list mre
       let '(st2, rs) := mrun cfg st1 rest in
       (st2, match o with Some r => r :: rs | None => rs end)
   end.
+
+(* ---- counted bursts: a compact notation for LONG histories ---------------- *)
+
+(* A campaign of [count] filter calls on the pairwise different inputs
+   pre ++ decimal(start + k) ++ post, k = 0 .. count-1.  It is notation only:
+   [burst_ops] is an ordinary list of OFilter operations, so every theorem
+   about mrun speaks about histories with bursts (of any length) as well.
+   [dec] prints a non-negative number in decimal (at most 40 digits: enough
+   for every number below 10^40; the correspondence cases stay far below). *)
+Fixpoint digits_fuel (fuel : nat) (n : Z) (acc : list Z) : list Z :=
+  match fuel with
+  | O => acc
+  | S f => let acc' := (48 + n mod 10) :: acc in
+           if n <? 10 then acc' else digits_fuel f (n / 10) acc'
+  end.
+Definition dec (n : Z) : list Z := digits_fuel 40 n [].
+
+Definition burst_contents (pre post : list Z) (start : Z) (count : nat) : list (list Z) :=
+  map (fun k => pre ++ dec (start + Z.of_nat k) ++ post) (seq 0 count).
+Definition burst_ops (pre post : list Z) (start : Z) (count : nat) : list mop :=
+  map OFilter (burst_contents pre post start count).
+
+(* scan-blocked decisions: the ones that enter the replay memory *)
+Definition scan_blocked (r : mresult) : bool :=
+  match r_kind r with Scanned => negb (r_allowed r) | _ => false end.
 
 (* Does the operation address the cell of _learned_patterns whose key is the
    pattern text k?  The dict is keyed by the text as written: a learn / import
@@ -357,6 +391,48 @@ Definition v_charset (allow_ctrl allow_null : bool) : validator := fun c =>
   if negb allow_null && existsb (fun x => x =? 0) c then VRet false true
   else if negb allow_ctrl && existsb is_ctrl c then VRet false true
   else VRet true false.
+
+(* JSONValidator(max_depth, max_size).  json.loads is a trusted host library:
+   an oracle [parse] that either returns the parsed document or raises one of
+   the two exception classes validate() catches (ValueError, of which
+   JSONDecodeError is a subclass, and RecursionError) = [PFails].  Of the parsed
+   document only its container structure matters: [JArr] the items of a list,
+   [JObj] the VALUES of a dict (keys are strings: never containers), [JAtom]
+   everything else (str, int, float, bool, None).
+   [measure_depth] is _measure_depth as written: early return once `current`
+   exceeds max_depth, an empty container counts one level, otherwise max() over
+   the (non-empty) generator of the children's measures.  [depth] is the
+   nesting depth the validator is documented to bound. *)
+Inductive json := JAtom | JArr (items : list json) | JObj (values : list json).
+Inductive parsed := PTree (t : json) | PFails.
+
+Definition zmax_list (l : list Z) : Z := fold_right Z.max 0 l.
+Fixpoint depth (t : json) : Z :=
+  match t with
+  | JAtom => 0
+  | JArr l | JObj l => 1 + zmax_list (map depth l)
+  end.
+
+(* Python's max() of a non-empty sequence *)
+Definition max_ne (x : Z) (xs : list Z) : Z := fold_left Z.max xs x.
+
+Fixpoint measure_depth (md : Z) (t : json) (cur : Z) {struct t} : Z :=
+  if md <? cur then cur
+  else match t with
+       | JAtom => cur
+       | JArr l | JObj l =>
+           match map (fun v => measure_depth md v (cur + 1)) l with
+           | [] => cur + 1
+           | x :: xs => max_ne x xs
+           end
+       end.
+
+Definition v_json (md mx : Z) (parse : list Z -> parsed) : validator := fun c =>
+  if mx <? Z.of_nat (length c) then VRet false true
+  else match parse c with
+       | PFails => VRet false true
+       | PTree t => if md <? measure_depth md t 0 then VRet false true else VRet true false
+       end.
 
 (* ---- pre-repair behaviour (documentation / refutation only) ------------- *)
 
